@@ -4,9 +4,17 @@
 From Coq Require Import ZArith List Bool Lia.
 From Coq.Strings Require Import Byte.
 From Verif Require Import Lib.Bytes Model.Wire Crypto.Sha256 Model.TxCodec Model.BlockCodec
-  Proofs.TxCodecSpec Proofs.TxCodecLib Proofs.BlockCodec.
+  Proofs.TxCodecSpec Proofs.TxCodecLib Proofs.BlockCodec Gen.GenFuncs Glue.WireGlue.
 Import ListNotations.
 Open Scope Z_scope.
+
+(* --- tie: the length/count encoders the transaction codec model is built from (lib_cs_enc, lib_cs_dec, lib_varstr)
+       are the functions re-translated from bitcoinlib/encoding.py on this run --- *)
+Theorem wire_source_is_model :
+  (forall n, gen_int_to_varbyteint n = lib_cs_enc n) /\
+  (forall b, gen_varbyteint_to_int b = Some (fst (lib_cs_dec b), Z.of_nat (snd (lib_cs_dec b)))) /\
+  (forall s, gen_varstr s = lib_varstr s).
+Proof. exact (conj gen_int_to_varbyteint_eq (conj gen_varbyteint_to_int_eq gen_varstr_eq)). Qed.
 
 (* --- the protocol codec: any counts, sizes, witness stacks --- *)
 Theorem spec_tx_codec : forall t rest, wf_tx t -> spec_parse (spec_ser t ++ rest) = Some (t, rest).
@@ -154,6 +162,7 @@ Proof. split; vm_compute; reflexivity. Qed.
 Example target_genesis : lib_target (be_bytes 4 486604799) = Some (65535 * 2 ^ 208).
 Proof. vm_compute. reflexivity. Qed.
 
+Print Assumptions wire_source_is_model.
 Print Assumptions spec_tx_codec.
 Print Assumptions spec_ser_prefix_free.
 Print Assumptions lib_roundtrip.
